@@ -29,7 +29,7 @@ TIERS = {
     'thorough': {'runs': 900000, 'classes': 32, 'budget_s': 1100},
 }
 
-PASSES = ['optimize', 'optimize', 'constant_propagation', 'constant_propagation_loud',
+PASSES = ['optimize', 'optimize', 'optimize_nonupdating', 'constant_propagation', 'constant_propagation_loud',
           'common_subexp_elimination', 'remove_wire_nets', 'remove_slice_nets',
           'remove_unlistened_nets']
 KINDS = ['word', 'word', 'synth', 'nand', 'aig']
@@ -83,6 +83,11 @@ def apply_pass(name, blk):
     import pyrtl
     from pyrtl import passes
     with transforms.quiet():
+        if name == 'optimize_nonupdating':
+            r = pyrtl.optimize(update_working_block=False, block=blk)
+            if r is blk:
+                return 'ok'      # (C11 judges aliasing; here only behaviour counts)
+            return ('replaced', r)
         if name == 'optimize':
             r = pyrtl.optimize(update_working_block=True, block=blk)
             if r is not blk:
@@ -146,6 +151,9 @@ def run(case, res):
         except Exception as e:
             return Violation('pass', 'raises', {'pass': pname, 'index': pi, 'exc': repr(e)[:400]},
                              tags0 + ['pass:' + pname] + _block_tags(nl_a))
+        if isinstance(outcome, tuple):
+            blk = outcome[1]            # the pass returned a new block: it is the result
+            outcome = 'ok'
         res.log.log('pass', pname, pi, outcome)
         res.faults.hit('pass_refused' if outcome == 'refused' else 'pass_applied')
         res.probes.hit('pass:' + pname)
